@@ -185,7 +185,36 @@ func (h *half) read(p []byte) (int, error) {
 type End struct {
 	base
 	r, w *half
+
+	// Clock, if set, makes this end honour write deadlines the way a socket does: a
+	// Write made when Clock() is past the deadline last set fails with a timeout error.
+	// The clock is the harness's (virtual), so no real waiting is involved.
+	Clock         func() time.Time
+	dmu           sync.Mutex
+	wdl           time.Time
+	WDeadlineSets int
+	WTimeouts     int
 }
+
+// NetErr is a net.Error with the given flavour.
+type NetErr struct {
+	Msg                    string
+	IsTimeout, IsTemporary bool
+}
+
+func (e *NetErr) Error() string   { return e.Msg }
+func (e *NetErr) Timeout() bool   { return e.IsTimeout }
+func (e *NetErr) Temporary() bool { return e.IsTemporary }
+
+func (e *End) SetWriteDeadline(t time.Time) error {
+	e.dmu.Lock()
+	e.wdl = t
+	e.WDeadlineSets++
+	e.dmu.Unlock()
+	return nil
+}
+
+func (e *End) SetDeadline(t time.Time) error { return e.SetWriteDeadline(t) }
 
 // BPipe returns a connected pair; each direction buffers up to cap bytes.
 func BPipe(cap int) (*End, *End) {
@@ -193,8 +222,22 @@ func BPipe(cap int) (*End, *End) {
 	return &End{r: ba, w: ab}, &End{r: ab, w: ba}
 }
 
-func (e *End) Read(p []byte) (int, error)  { return e.r.read(p) }
-func (e *End) Write(p []byte) (int, error) { return e.w.write(p) }
+func (e *End) Read(p []byte) (int, error) { return e.r.read(p) }
+func (e *End) Write(p []byte) (int, error) {
+	if e.Clock != nil {
+		e.dmu.Lock()
+		d := e.wdl
+		expired := !d.IsZero() && e.Clock().After(d)
+		if expired {
+			e.WTimeouts++
+		}
+		e.dmu.Unlock()
+		if expired {
+			return 0, &NetErr{Msg: "write mem: i/o timeout", IsTimeout: true, IsTemporary: true}
+		}
+	}
+	return e.w.write(p)
+}
 func (e *End) Close() error {
 	e.w.mu.Lock()
 	e.w.wclose = true
@@ -247,7 +290,12 @@ type Fault struct {
 	InTotal  int
 	OutCount int
 	parkOnce sync.Once
+
+	readsAfterFail int
 }
+
+// ReadsAfterFail: how many Reads were attempted after the injected read failure had been reported.
+func (f *Fault) ReadsAfterFail() int { f.mu.Lock(); defer f.mu.Unlock(); return f.readsAfterFail }
 
 func NewFault(c net.Conn) *Fault {
 	return &Fault{Conn: c, ReadFailAt: -1, ReadErr: ErrInjected, WriteErr: ErrInjected}
@@ -256,6 +304,7 @@ func NewFault(c net.Conn) *Fault {
 func (f *Fault) Read(p []byte) (int, error) {
 	f.mu.Lock()
 	if f.rfailed {
+		f.readsAfterFail++
 		f.mu.Unlock()
 		return 0, f.ReadErr
 	}
@@ -453,4 +502,11 @@ func (t *Tap) Max() (in, out int) {
 	t.mu.Lock()
 	defer t.mu.Unlock()
 	return t.MaxIn, t.MaxOut
+}
+
+// dmuStats reports how often a write deadline was set and how many writes timed out.
+func (e *End) DeadlineStats() (sets, timeouts int) {
+	e.dmu.Lock()
+	defer e.dmu.Unlock()
+	return e.WDeadlineSets, e.WTimeouts
 }
